@@ -14,7 +14,7 @@ META = {
     "assumptions": [
         "plane normals are unit vectors (mesh_plane compares the raw dot product with tol.merge): axis directions and a rational catalogue of oblique unit normals; offset symbolic",
         "coordinates |x| <= 1000; for slices every vertex is either exactly on the plane or at least 1e-6 away (the band (0,1e-8] where the code snaps vertices is excluded there)",
-        "caps / cap volumes (shapely, earcut), mesh_multiplane and Trimesh.section's path assembly (align_vectors -> SVD, vertex merging) are not encodable and not claimed",
+        "caps / cap volumes (shapely, earcut), the 2D projection of mesh_multiplane (plane_transform -> SVD, matrix inverse: stubbed; its 3D part IS checked with non-unit normals) and Trimesh.section's path assembly (align_vectors -> SVD, vertex merging) are not encodable and not claimed",
     ],
 }
 
@@ -145,6 +145,100 @@ def u_section_triangle(ctx):
                 ctx.true("segment %d = the exact intersection of the plane with the triangle (points on its edges) [signs %s]" % (k, cls), bool(ok), "segment=%r expected=%r" % (seg, (q0, q1)))
 
 
+class _NoProjection:
+    """module-global stand-in used only while the multiplane unit runs: delegates to whatever `np` the engine planted, but
+    `linalg.inv` returns its argument (the inverse only feeds the 2D projection of the result, which is NOT claimed)"""
+
+    class _LA:
+        @staticmethod
+        def inv(m):
+            return m
+
+    def __init__(self, base):
+        self._base = base
+        self.linalg = self._LA()
+
+    def __getattr__(self, k):
+        return getattr(self._base, k)
+
+
+def u_multiplane_triangle(ctx):
+    """3D part of mesh_multiplane: for a NON-unit normal k*e and a height, the 3D segment handed to the 2D projection is the
+    exact intersection of the triangle with the plane unit(n).(x - origin) = height"""
+    import trimesh
+    from trimesh import intersections
+
+    V = _tri_input(ctx, 1000)
+    ax, kk = ctx.params["normal"], ctx.params["scale"]
+    e = NORMALS[ax]
+    n = [e[i] * kk for i in range(3)]
+    h = ctx.real("h", -1000, 1000)
+    c = ctx.real("c", -100, 100)
+    origin = [e[i] * c for i in range(3)]
+    if ctx.sym:
+        nn = nparr.set_sd(nparr.wrap(np.array(n, dtype=object)), np.float64)
+        oo = nparr.set_sd(nparr.wrap(np.array(origin, dtype=object)), np.float64)
+        hh = nparr.set_sd(nparr.wrap(np.array([h], dtype=object)), np.float64)
+    else:
+        nn, oo, hh = np.array([float(v) for v in n]), np.array([float(v) for v in origin]), np.array([float(h)])
+    mesh = trimesh.Trimesh(vertices=V, faces=np.array([[0, 1, 2]]), process=False)
+    captured = []
+    saved = (intersections.np, intersections.geometry, intersections.tf)
+
+    class _Geo:
+        @staticmethod
+        def plane_transform(origin, normal):
+            return np.eye(4)
+
+    class _Tf:
+        @staticmethod
+        def transform_points(points, matrix):
+            captured.append(points)
+            return np.zeros((len(points), 3))
+
+    try:
+        intersections.np = _NoProjection(saved[0])
+        intersections.geometry = _Geo
+        intersections.tf = _Tf
+        segs, tfs, fidx = intersections.mesh_multiplane(mesh, plane_origin=oo, plane_normal=nn, heights=hh)
+    finally:
+        intersections.np, intersections.geometry, intersections.tf = saved
+    ctx.concrete_equal("one projection call per height", len(captured), 1)
+    lines = np.asarray(nparr.base(captured[0]) if ctx.sym else captured[0]).reshape(-1, 2, 3)
+    off = c + h  # the requested plane: e . x = c + h (e is the unit normal)
+    d = [_dot_plane(e, off, V[i]) for i in range(3)]
+    above = [x > TOL_MERGE for x in d]
+    below = [x < -TOL_MERGE for x in d]
+    cls = [(1 if bool(a) else (-1 if bool(b) else 0)) for a, b in zip(above, below)]
+    zeros = cls.count(0)
+    separated = (1 in cls) and (-1 in cls)
+    if zeros <= 1:
+        ctx.concrete_equal("multiplane: a segment is returned iff the requested plane separates the vertices [signs %s]" % cls, len(lines), 1 if separated else 0)
+    ctx.concrete_equal("multiplane: face index of every segment", [int(i) for i in np.asarray(fidx[0]).reshape(-1)], [0] * len(lines))
+    expected = []
+    for i, j in ((0, 1), (1, 2), (2, 0)):
+        if cls[i] * cls[j] < 0:
+            t = d[i] / (d[i] - d[j])
+            expected.append([V[i][q] + t * (V[j][q] - V[i][q]) for q in range(3)])
+    for i in range(3):
+        if cls[i] == 0:
+            expected.append([V[i][q] for q in range(3)])
+    for k, seg in enumerate(lines):
+        for en in range(2):
+            ctx.close("multiplane: endpoint %d.%d lies on the requested plane within tol.merge [signs %s]" % (k, en, cls), _dot_plane(e, off, seg[en]), 0, TOL_MERGE)
+        if len(expected) == 2:
+            q0, q1 = expected
+            if ctx.sym:
+                same = l_and(*[seg[0][q] == q0[q] for q in range(3)], *[seg[1][q] == q1[q] for q in range(3)])
+                swap = l_and(*[seg[0][q] == q1[q] for q in range(3)], *[seg[1][q] == q0[q] for q in range(3)])
+                ctx.true("multiplane: segment %d = exact intersection of the requested plane with the triangle [signs %s]" % (k, cls), l_or(same, swap))
+            else:
+                tolp = 1e-7 * (1 + float(np.abs(seg).max()))
+                q0, q1 = np.array(q0, dtype=float), np.array(q1, dtype=float)
+                ok = (np.abs(seg[0] - q0).max() <= tolp and np.abs(seg[1] - q1).max() <= tolp) or (np.abs(seg[0] - q1).max() <= tolp and np.abs(seg[1] - q0).max() <= tolp)
+                ctx.true("multiplane: segment %d = exact intersection of the requested plane with the triangle [signs %s]" % (k, cls), bool(ok), "segment=%r expected=%r" % (seg, (q0, q1)))
+
+
 FACES_TET = np.array([[0, 2, 1], [0, 1, 3], [1, 2, 3], [0, 3, 2]])
 
 
@@ -253,6 +347,10 @@ def units(tier):
             us.append(Unit("slice-triangle-axis%d-%s" % (k, mode), u_slice_triangle, params={"normal": k, "mode": mode}, key="slice-triangle", functions=fl,
                            bounds="EVERY triangle |x|<=1000 with vertices %s (other vertices >= 1e-6 away) x axis normal e%d x every offset" % ({"general": "all off the plane", "on0": "0 exactly on the plane", "on1": "1 exactly on the plane", "on2": "2 exactly on the plane", "edge01": "0,1 exactly on the plane", "edge12": "1,2 exactly on the plane", "edge02": "0,2 exactly on the plane"}[mode], k),
                            subspace="A: symbolic triangle x axis normal x symbolic offset", max_paths=1500, wall_s=400, ob_ms=30000, feas_ms=800, group=False))
+    for k, sc in ((2, 2), (0, lib.Fr(1, 2)), (1, 3)):
+        us.append(Unit("multiplane-triangle-axis%d-scaled" % k, u_multiplane_triangle, params={"normal": k, "scale": sc}, key="multiplane-triangle", functions=[F + "mesh_multiplane", F + "mesh_plane", F + "plane_lines", "trimesh.util.unitize"],
+                       bounds="3D part of mesh_multiplane only (plane_transform / inverse / 2D projection stubbed, not claimed): EVERY triangle |x|<=1000 x NON-unit normal %s*e%d x every origin offset |c|<=100 along the normal x every height |h|<=1000 (one height per call)" % (sc, k),
+                       subspace="A: symbolic triangle x scaled axis normal x symbolic origin and height", max_paths=400, wall_s=300, ob_ms=30000, feas_ms=800, group=False))
     combos = [(3, 0), (3, 4), (4, 1), (5, 2), (6, 5), (4, 3)] if not T else [(nk, t) for nk in (3, 4, 5, 6) for t in range(len(TRIANGLES))]
     for nk, t in combos:
         us.append(Unit("section-triangle-oblique%d-tri%d" % (nk, t), u_section_triangle, params={"normal": nk, "triangle": t}, key="section-triangle", functions=fs,
